@@ -55,6 +55,9 @@ func valKey(v ssa.Value, depth int) string {
 	case *ssa.Index:
 		return "(" + valKey(x.X, depth+1) + ")[" + valKey(x.Index, depth+1) + "]"
 	case *ssa.UnOp:
+		if x.Op == token.MUL {
+			return "*(" + valKey(x.X, depth+1) + ")" + loadClass(x)
+		}
 		return x.Op.String() + "(" + valKey(x.X, depth+1) + ")"
 	case *ssa.BinOp:
 		return "(" + valKey(x.X, depth+1) + " " + x.Op.String() + " " + valKey(x.Y, depth+1) + ")"
@@ -455,7 +458,7 @@ func PathFactsAvoid(f *ssa.Function, target *ssa.BasicBlock, avoid map[*ssa.Basi
 		}
 		onPath[b] = true
 		defer func() { onPath[b] = false }()
-		if iff, isIf := b.Instrs[len(b.Instrs)-1].(*ssa.If); isIf && !loadUnstable(iff.Cond) {
+		if iff, isIf := b.Instrs[len(b.Instrs)-1].(*ssa.If); isIf {
 			key, pos := condAtom(iff.Cond)
 			for i, s := range b.Succs {
 				if !canReach[s] {
@@ -483,6 +486,137 @@ func PathFactsAvoid(f *ssa.Function, target *ssa.BasicBlock, avoid map[*ssa.Basi
 	}
 	dfs(f.Blocks[0])
 	return paths, ok
+}
+
+// ---- load classes -----------------------------------------------------------
+//
+// Two loads of the same address are given the same class (and therefore the
+// same structural key) only when no writer of that cell can execute between
+// them, in either order. Writers are stores to the same or an enclosing /
+// enclosed address, and calls that are handed the address, its root pointer or
+// (for fields of a pointer-typed root) the root object itself.
+
+type loadClassCache struct {
+	class map[*ssa.UnOp]string
+}
+
+var loadClasses = map[*ssa.Function]*loadClassCache{}
+
+func addrKeyNoClass(a ssa.Value) string {
+	switch x := a.(type) {
+	case *ssa.FieldAddr:
+		return "&(" + addrKeyNoClass(x.X) + ")." + fieldName(x.X.Type(), x.Field)
+	case *ssa.IndexAddr:
+		return "&(" + addrKeyNoClass(x.X) + ")[" + valKey(x.Index, 8) + "]"
+	case *ssa.UnOp:
+		if x.Op == token.MUL {
+			return "*(" + addrKeyNoClass(x.X) + ")"
+		}
+	}
+	return valKey(a, 8)
+}
+
+func loadClass(ld *ssa.UnOp) string {
+	f := ld.Parent()
+	if f == nil {
+		return ""
+	}
+	c := loadClasses[f]
+	if c == nil {
+		c = &loadClassCache{class: map[*ssa.UnOp]string{}}
+		loadClasses[f] = c
+		computeLoadClasses(f, c)
+	}
+	return c.class[ld]
+}
+
+func computeLoadClasses(f *ssa.Function, c *loadClassCache) {
+	type ldInfo struct {
+		ld   *ssa.UnOp
+		key  string
+		root ssa.Value
+	}
+	byKey := map[string][]ldInfo{}
+	var keys []string
+	Instrs(f, func(in ssa.Instruction) {
+		if u, ok := in.(*ssa.UnOp); ok && u.Op == token.MUL {
+			k := addrKeyNoClass(u.X)
+			if _, had := byKey[k]; !had {
+				keys = append(keys, k)
+			}
+			byKey[k] = append(byKey[k], ldInfo{u, k, AddrRoot(u.X)})
+		}
+	})
+	// writers per address key
+	writersOf := func(li ldInfo) []ssa.Instruction {
+		var ws []ssa.Instruction
+		rootKey := ""
+		if li.root != nil {
+			rootKey = addrKeyNoClass(li.root)
+		}
+		path := AddrPath(li.ld.X)
+		Instrs(f, func(in ssa.Instruction) {
+			switch x := in.(type) {
+			case *ssa.Store:
+				if AddrRoot(x.Addr) == li.root || addrKeyNoClass(AddrRoot(x.Addr)) == rootKey {
+					p := AddrPath(x.Addr)
+					if strings.HasPrefix(p, path) || strings.HasPrefix(path, p) {
+						ws = append(ws, in)
+					}
+				}
+			case ssa.CallInstruction:
+				cc := x.Common()
+				if b, ok := cc.Value.(*ssa.Builtin); ok && (b.Name() == "len" || b.Name() == "cap" || b.Name() == "append" || b.Name() == "copy" || b.Name() == "delete") {
+					return
+				}
+				args := append([]ssa.Value{}, cc.Args...)
+				if cc.IsInvoke() {
+					args = append(args, cc.Value)
+				}
+				for _, a := range args {
+					if _, isPtr := a.Type().Underlying().(*types.Pointer); !isPtr {
+						continue
+					}
+					ak := addrKeyNoClass(a)
+					if ak == rootKey || ak == li.key || AddrRoot(a) == li.root && li.root != nil {
+						ws = append(ws, in)
+					}
+				}
+			case *ssa.MapUpdate:
+				_ = x
+			}
+		})
+		return ws
+	}
+	for _, k := range keys {
+		lds := byKey[k]
+		if len(lds) == 0 {
+			continue
+		}
+		ws := writersOf(lds[0])
+		reps := []*ssa.UnOp{}
+		for _, li := range lds {
+			assigned := false
+			for i, rep := range reps {
+				between := false
+				for _, w := range ws {
+					if ReachableAfter(rep, w) && ReachableAfter(w, li.ld) || ReachableAfter(li.ld, w) && ReachableAfter(w, rep) {
+						between = true
+						break
+					}
+				}
+				if !between {
+					c.class[li.ld] = fmt.Sprintf("#%d", i)
+					assigned = true
+					break
+				}
+			}
+			if !assigned {
+				reps = append(reps, li.ld)
+				c.class[li.ld] = fmt.Sprintf("#%d", len(reps)-1)
+			}
+		}
+	}
 }
 
 // loadUnstable reports whether the condition depends on a load that two
